@@ -949,6 +949,11 @@ func (s *Projections) Add(projection *Projection) {
 }
 
 func (s *Projections) Current() *Projection {
+	if s == nil || len(s.Items) == 0 {
+		// No projection has been prepared yet (e.g. a quantifier inside UNWIND)
+		return nil
+	}
+
 	return s.Items[len(s.Items)-1]
 }
 
